@@ -68,6 +68,15 @@ def shaped(draw, tier):
         for d in data:
             t = dtm.datetime(draw(st.integers(1900, 2200)), draw(st.integers(1, 12)), draw(st.sampled_from([1, 15, 28])))
             d["time"] = tg.iso(t) if kind == "datetime" else t.date().isoformat()
+        if draw(st.booleans()):
+            # the latest (or earliest) datum on a leap day, with a time of day
+            ly = draw(st.sampled_from([1904, 1996, 2000, 2024, 2096, 2196]))
+            t = dtm.datetime(ly, 2, 29, draw(st.sampled_from([0, 8, 23])), draw(st.sampled_from([0, 30])))
+            if draw(st.booleans()):
+                ly0 = min(int(d["time"][:4]) for d in data)
+                ly = max(y for y in (1904, 1996, 2000, 2024, 2096, 2196) if True)
+                t = t.replace(year=2196)
+            data[draw(st.integers(0, len(data) - 1))]["time"] = tg.iso(t) if kind == "datetime" else t.date().isoformat()
         spec["domain"] = None
     return spec
 
